@@ -131,6 +131,20 @@ def run_profile(ctx, prop, profile, nseq, nops, size, kinds=None, seed_off=0, sh
             if j is not None:
                 kind, proc, detail = signature(ss[j])
                 final_step = ss[j]
+        # a sequential history is deterministic up to the timing of background threads: a failure that the same
+        # operations do not show again in two further runs is recorded as an unreproduced observation (trace kept
+        # under .work/failed_traces), not reported as a violation - a violation comes with a replay that replays
+        if owned_here and small is ops:
+            again = False
+            for _ in range(2):
+                ss2, _, _ = vlib.judge_ops(hdr, ops, 'again')
+                if any(any(a in kinds or a == 'panic' for a, _ in vlib.classify_all(x)) for x in ss2
+                       if (x['panic'] or not x['reply'] or x['nabs'] or x['nwf'] or not x['alloc'] or not x.get('trace', 1))):
+                    again = True
+                    break
+            if not again:
+                stats.setdefault('unreproduced', []).append('%s/%s/%s step %s of %s seq %d' % (kind, proc, detail[:80], st['id'], profile, r['index']))
+                continue
         # a step may break several relations at once: the property owns the failure if any of them is its own
         allk = vlib.classify_all(final_step)
         own = [(k_, d_) for k_, d_ in allk if k_ in kinds]
